@@ -170,6 +170,72 @@ type spell struct {
 	r        *vlib.Rng
 	flipCase bool
 	ws       bool
+	num      bool // re-spell the numeric part of dimensions and percentages (10px = 10.0px = 1e1px = +10px)
+	numPlain bool // ... and of top-level <number> tokens (never set for <integer> positions, see integerProps)
+}
+
+// Properties whose grammar has an <integer> (or a number /repo's documented grammar restricts to integers)
+// somewhere: `1.0` is legitimately invalid there, so plain numbers are never re-spelled in their values
+// (dimensions and percentages still are).  Everything else takes <number> / <length> zero, for which
+// 0 = 0.0 = 0e0 = +0 = .0 and 1 = 1.0 = 1e0 = +1 (css-values-4 4.2/4.3: the spelling is not the value).
+var integerProps = map[string]bool{"z-index": true, "order": true, "orphans": true, "widows": true,
+	"column-count": true, "columns": true, "font-weight": true, "font": true,
+	"counter-increment": true, "counter-reset": true, "counter-set": true,
+	"font-feature-settings": true, "font-variation-settings": true, "font-variant": true, "font-variant-alternates": true,
+	"hyphenate-limit-chars": true, "max-lines": true, "line-clamp": true, "block-ellipsis": true, "continue": true,
+	"image-resolution": true, "string-set": true, "content": true, "bookmark-level": true, "bookmark-label": true,
+	"footnote-policy": true, "footnote-display": true, "tab-size": true, "initial-letter": true,
+	"page": true, "size": true, "marks": true, "anchor": true, "link": true, "lang": true, "quotes": true}
+
+func numberRespellable(prop string) bool {
+	return !integerProps[prop] && !strings.HasPrefix(prop, "grid") && !strings.HasPrefix(prop, "--")
+}
+
+// respellNumber: another spelling of the same numeric value.  `text` is the number as written
+// ([+-]? digits [. digits]? without exponent: the tables of this harness never use exponents; a
+// text with an exponent is returned unchanged).  prev = the byte written just before (a sign is
+// only added after whitespace, `(` or `,`: `a+1` and `a +1` tokenize differently).
+// `-0` is never produced: the float value -0 prints differently from 0 without meaning anything else.
+func respellNumber(r *vlib.Rng, text string, prev byte) string {
+	if strings.ContainsAny(text, "eE") || text == "" {
+		return text
+	}
+	sign, body := "", text
+	if body[0] == '+' || body[0] == '-' {
+		sign, body = body[:1], body[1:]
+	}
+	hasDot := strings.Contains(body, ".")
+	var opts []string
+	if hasDot {
+		opts = append(opts, sign+body+"0", sign+body+"e0", sign+body+"E+0", sign+body+"00e-0")
+		if strings.HasPrefix(body, "0.") {
+			opts = append(opts, sign+body[1:])
+		} else if strings.HasPrefix(body, ".") {
+			opts = append(opts, sign+"0"+body, sign+"00"+body)
+		}
+	} else {
+		opts = append(opts, sign+body+".0", sign+body+".00", sign+body+"e0", sign+body+"E0", sign+body+"e+0", sign+body+".0e-0", sign+"0"+body)
+		if body == "0" {
+			opts = append(opts, sign+".0", sign+".00", sign+"0e3", sign+"0.0e1")
+		} else if strings.HasSuffix(body, "0") {
+			opts = append(opts, sign+body[:len(body)-1]+"e1", sign+body[:len(body)-1]+".0e+1")
+		} else {
+			opts = append(opts, sign+body+"0e-1")
+		}
+	}
+	out := vlib.Pick(r, opts)
+	if sign == "" && (prev == ' ' || prev == '(' || prev == ',' || prev == 0 || prev == '\n' || prev == '\t') && r.Chance(1, 4) {
+		out = "+" + out
+	}
+	return out
+}
+
+func lastByte(sb *strings.Builder) byte {
+	s := sb.String()
+	if s == "" {
+		return 0
+	}
+	return s[len(s)-1]
 }
 
 func flip(r *vlib.Rng, s string) string {
@@ -222,11 +288,30 @@ func (sp *spell) render(ts []pa.Token) string {
 			}
 		case pa.Dimension:
 			s := pa.Serialize([]pa.Token{t})
+			if sp.num && strings.HasPrefix(s, t.Value) && s[len(t.Value):] == t.Unit && !strings.HasPrefix(strings.ToLower(t.Unit), "e") {
+				// (units starting with e: `1e0em` is fine but keep clear of the exponent ambiguity altogether,
+				// except for the decimal spellings which cannot be read as exponents)
+				s = respellNumber(sp.r, t.Value, lastByte(&sb)) + t.Unit
+			} else if sp.num && strings.HasPrefix(s, t.Value) && s[len(t.Value):] == t.Unit && !strings.ContainsAny(t.Value, ".eE") {
+				s = t.Value + vlib.Pick(sp.r, []string{".0", ".00"}) + t.Unit
+			}
 			if sp.flipCase {
 				n := len(s) - len(t.Unit)
 				s = s[:n] + flip(sp.r, s[n:])
 			}
 			sb.WriteString(s)
+		case pa.Percentage:
+			if sp.num {
+				sb.WriteString(respellNumber(sp.r, t.Value, lastByte(&sb)) + "%")
+			} else {
+				sb.WriteString(pa.Serialize([]pa.Token{t}))
+			}
+		case pa.Number:
+			if sp.num && sp.numPlain {
+				sb.WriteString(respellNumber(sp.r, t.Value, lastByte(&sb)))
+			} else {
+				sb.WriteString(pa.Serialize([]pa.Token{t}))
+			}
 		case pa.Hash:
 			if sp.flipCase {
 				sb.WriteString(flip(sp.r, pa.Serialize([]pa.Token{t})))
@@ -245,10 +330,14 @@ func (sp *spell) render(ts []pa.Token) string {
 				name = flip(sp.r, name)
 			}
 			if strings.ToLower(t.Name) == "attr" { // attribute names are not keywords
-				inner := &spell{r: sp.r, ws: sp.ws}
+				inner := &spell{r: sp.r, ws: sp.ws, num: sp.num}
 				sb.WriteString(name + "(" + sp.pad() + inner.render(t.Arguments) + sp.pad() + ")")
 			} else {
-				sb.WriteString(name + "(" + sp.pad() + sp.render(t.Arguments) + sp.pad() + ")")
+				// plain numbers inside functions are not re-spelled: rgb(255 ...) / hsl() / steps() / repeat()
+				// have integer-only or legacy-integer positions
+				inner := *sp
+				inner.numPlain = false
+				sb.WriteString(name + "(" + sp.pad() + inner.render(t.Arguments) + sp.pad() + ")")
 			}
 		case pa.ParenthesesBlock:
 			sb.WriteString("(" + sp.render(t.Arguments) + ")")
@@ -646,7 +735,26 @@ func metaCases(rng *vlib.Rng, n int, corpus [][4]string, unsupported map[string]
 		}
 		toks := valueTokens(b.prop, b.value)
 		canon := b.decl()
-		switch r.Intn(9) {
+		switch r.Intn(11) {
+		case 9, 10: // number spellings: the same values written 0 / 0.0 / 0e0 / +0 / .0, 10px / 10.0px / 1e1px, 50% / 50.0%
+			if strings.HasPrefix(b.prop, "--") {
+				continue
+			}
+			sp := &spell{r: r, num: true, numPlain: numberRespellable(b.prop)}
+			rendered := sp.render(toks)
+			if rendered == (&spell{r: r}).render(toks) {
+				continue // no numeric token to re-spell in this value
+			}
+			v := b.prop + ": " + strings.TrimSpace(rendered)
+			if r.Chance(1, 4) { // together with case / whitespace noise
+				sp.flipCase, sp.ws = r.Bool(), r.Bool()
+				v = b.prop + ": " + sp.render(toks)
+			}
+			tags := []string{"respelled"}
+			if sp.numPlain {
+				tags = append(tags, "plain-numbers")
+			}
+			emitT("meta-num", "decl", b.prop, tags, canon, v, "", nil)
 		case 0, 1: // case
 			sp := &spell{r: r, flipCase: true}
 			name := b.prop
